@@ -135,7 +135,7 @@ class Executor(Engine, ExprMixin, StmtMixin, CallMixin):
     # ------------------------------------------------------------------ call by contract
     def callee_env(self, st, c, f, args, kwargs):
         names = None
-        if isinstance(f, types.FunctionType):
+        if isinstance(f, types.FunctionType) and (f.__module__ or '').split('.')[0] in ('giscanner', 'contracts'):
             fnode = func_ast(f)
             return self.bind(fnode, args, kwargs, st=st)
         names = list(c.params)
@@ -387,6 +387,20 @@ class Executor(Engine, ExprMixin, StmtMixin, CallMixin):
         env.update({k: v for k, v in st.vars.items() if v is not UNBOUND})
         self.havoc(st, c, env, spec.get('modifies', []))
 
+    def ghost_init(self, st, spec):
+        """ghost variables captured at loop entry (visible to invariants and to the postconditions)"""
+        c = self.cur_contract
+        for gname, expr in spec.get('ghost_init', {}).items():
+            env = dict(self.top_env)
+            env.update({k: v for k, v in st.vars.items() if v is not UNBOUND})
+            v = self.eval_in(st, c, env, expr)
+            if isinstance(v, V):
+                # freeze the value: a fresh constant equal to it on this path
+                k = fresh('ghost_' + gname)
+                self.assume(st, k == v.t)
+                v = V(k, v.hint)
+            self.top_env[gname] = v
+
     def fold_value(self, name, k):
         """FOLD(name, k): value of the declared left fold after k elements (uninterpreted; the defining
         equations are instantiated at 0 and at the loop index by the generator)."""
@@ -422,6 +436,9 @@ class Executor(Engine, ExprMixin, StmtMixin, CallMixin):
         fr = self.frame()
         name = 'loop%d' % ordinal
         ivar = spec.get('index', 'I%d' % ordinal)
+        for vn, vv in list(st.vars.items()):
+            if isinstance(vv, GList):
+                st.vars[vn] = self.as_v(st, vv)      # locally built lists become heap lists at an invariant cut
         # iterable: symbolic list, or dict view
         view = None
         if isinstance(it, PyObj) and isinstance(it.o, tuple) and it.o and it.o[0] == 'dictview':
@@ -439,6 +456,7 @@ class Executor(Engine, ExprMixin, StmtMixin, CallMixin):
         n = self.list_len(st, r)
         self.assume(st, n >= 0)
         st.vars[ivar] = V(mkI(0), parse_spec('int'))
+        self.ghost_init(st, spec)
         self.fold_axioms(st, spec, None, False)
         self.check_inv(st, spec, name, 'init', None)
         head_heap_elem = z3.Select(self.harr(st, '$ELEM'), r)
@@ -478,6 +496,11 @@ class Executor(Engine, ExprMixin, StmtMixin, CallMixin):
             if view == 'enumerate':
                 x = PyTuple([V(mkI(iv), parse_spec('int')), x])
         self.assign(st, s.target, x)
+        for tn in self.assigned_names([pyast.Assign(targets=[s.target], value=pyast.Constant(value=None))]):
+            if tn in spec.get('var_types', {}) and isinstance(st.vars.get(tn), V):
+                sp = parse_spec(spec['var_types'][tn])
+                self.assume(st, sp.assumption(st.vars[tn].t))     # declared element type (data invariant of the container)
+                st.vars[tn] = V(st.vars[tn].t, sp)
         self.fold_axioms(st, spec, iv, True)
         loop_id = object()
         fr.loop_stack.append(loop_id)
@@ -501,6 +524,8 @@ class Executor(Engine, ExprMixin, StmtMixin, CallMixin):
         st.vars[ivar] = V(mkI(n), parse_spec('int'))
         if s.orelse:
             self.exec_block(st, s.orelse)
+        if 'ghost_exit' in spec and not breaks:
+            self.ghost_init(st, {'ghost_init': spec['ghost_exit']})
         for b in breaks:
             b.state.vars.setdefault(ivar, V(mkI(iv), parse_spec('int')))
         self.merge_exit_states(st, breaks)
